@@ -2372,8 +2372,14 @@ fn run(v: &Value) -> Result<String, String> {
                 for plen in 1..=17usize {
                     let path = format!("/{}", "p".repeat(plen - 1));
                     let want = repe::Message::builder().query_str(&path).body_aligned_typed_slice(&data).build();
-                    for which in ["blocking", "async"] {
-                        let _: Vec<u8> = if which == "blocking" { client.call_typed_slice_aligned(&path, &data).map_err(|e| e.to_string())? } else { rt.block_on(aclient.call_typed_slice_aligned(&path, &data)).map_err(|e| e.to_string())? };
+                    for which in ["blocking", "async", "blocking with_timeout", "async with_timeout"] {
+                        let t = std::time::Duration::from_secs(30);
+                        let _: Vec<u8> = match which {
+                            "blocking" => client.call_typed_slice_aligned(&path, &data).map_err(|e| e.to_string())?,
+                            "async" => rt.block_on(aclient.call_typed_slice_aligned(&path, &data)).map_err(|e| e.to_string())?,
+                            "blocking with_timeout" => client.call_typed_slice_aligned_with_timeout(&path, &data, t).map_err(|e| e.to_string())?,
+                            _ => rt.block_on(aclient.call_typed_slice_aligned_with_timeout(&path, &data, t)).map_err(|e| e.to_string())?,
+                        };
                         let sent = rx.recv_timeout(std::time::Duration::from_secs(5)).map_err(|_| "peer saw no request".to_string())?;
                         if sent.query != want.query || sent.body != want.body || sent.header.body_format != want.header.body_format {
                             return Err(format!("{which} client, {name}, path of {plen} bytes: the aligned request body differs from the builder's aligned body for the same query ({} vs {} bytes): the padding was not computed for offset 48 + {plen}", sent.body.len(), want.body.len()));
@@ -2907,6 +2913,32 @@ fn bulk_sweep_type<T: Gen>(name: &str, lens: &[usize]) -> Result<usize, String> 
             let mut m = bulk.clone();
             m.header.body_format = code;
             if m.decode_typed_slice::<T>().is_ok() { return Err(format!("{name} n={n}: a body declared as format {code} was decoded as a typed array")); }
+        }
+        // 4b. ... also through the typed-slice routes, owned and borrowed dispatch alike, whatever the query format says
+        for code in [0u16, 2, 3, 4, 0x1000, 0xffff] {
+            for route in ["/r", "/o"] {
+                let mut m = repe::Message::builder().id(5).query_str(route).query_format(repe::QueryFormat::JsonPointer).body_typed_slice(&data).build();
+                m.header.body_format = code;
+                let h = router.get(route).ok_or("route missing")?;
+                let owned = h.handle(&m).map_err(|e| e.to_string())?;
+                let wire = m.to_vec();
+                let view = repe::MessageView::from_slice(&wire).map_err(|e| e.to_string())?;
+                let borrowed = h.handle_view(&view, &CallContext::detached(route)).map_err(|e| e.to_string())?;
+                if !owned.is_error() || !borrowed.is_error() || owned.header.ec != borrowed.header.ec {
+                    return Err(format!("{name} n={n}: route {route} given a body declared as format {code}: owned dispatch answered ec {}, borrowed dispatch ec {}; both must reject it alike", owned.header.ec, borrowed.header.ec));
+                }
+            }
+        }
+        // 4c. the aligned builder pads for the payload's real offset 48 + |query|, whatever spare capacity the query buffer has
+        for qlen in [1usize, 2, 5, 8, 13] {
+            let q: Vec<u8> = (0..qlen).map(|i| if i == 0 { b'/' } else { b'q' }).collect();
+            let reference = repe::Message::builder().id(6).query_bytes(q.clone()).body_aligned_typed_slice(&data).build().to_vec();
+            for spare in 1..=9usize {
+                let mut roomy = Vec::with_capacity(qlen + spare);
+                roomy.extend_from_slice(&q);
+                let got = repe::Message::builder().id(6).query_bytes(roomy).body_aligned_typed_slice(&data).build().to_vec();
+                if got != reference { return Err(format!("{name} n={n} qlen={qlen}: the aligned body built over a query buffer with {spare} spare bytes of capacity differs from the one built over an exact buffer")); }
+            }
         }
         // 5. the aligned form through the borrowing route, at every buffer misalignment and query length residue
         for qlen in 0..=16usize {
